@@ -312,9 +312,20 @@ class C20(Prop):
         ops = []
         self._pl = []
 
+        self._unpinned = set()
+
         def add(pre, p):
             self._pl.append((pre, p))
-            ops.append("wr %s %s" % (G.spec(pre), BG.payload_text(p)))
+            op = "wr %s %s" % (G.spec(pre), BG.payload_text(p))
+            ops.append(op)
+            enc = BG.payload_enc(p)
+            # C20 pins success (with the exact bytes) while the result still fits a full-size header,
+            # and the refusal of oversized values. Whether a write that would carry the writer past
+            # 65551 bytes succeeds as a whole, or fails part-way (as the current tree does for values
+            # written in several pieces), is not pinned: only that a success appends exactly the
+            # encoding (relation below).
+            if enc is not None and len(pre) + len(enc) > 65551:
+                self._unpinned.add(op)
 
         pre_small = lambda: G.rand_bytes(rng, rng.choice([0, 1, 16, 40]))
         # integers: all widths at min / max / patterns
@@ -357,6 +368,9 @@ class C20(Prop):
         return ops
 
     def project(self, op, line):
+        if op in getattr(self, "_unpinned", ()) and line.startswith("ret="):
+            _, kv = C.fields(line)
+            return ("past-limit", kv.get("pre"), kv.get("tb"), kv.get("ref"))
         return line if line.startswith("ret=") else line[:40]
 
     def relation(self, ops, impl):
